@@ -597,6 +597,26 @@ func (g *vGen) runScenario(idx int, dir string) vVerdict {
 		feats = append(feats, "db-busy-faults")
 		extra = 8
 	}
+	// a connection flap before the fair suffix: both ends see the stream go and the SAME peer come back (same key); transactions are
+	// created while the connection is down and after it is back - only gossip can make the other side ask for them
+	if idx%3 == 0 {
+		cc := s.sc.Conns[r.Intn(len(s.sc.Conns))]
+		a, b := cc.At, cc.Peer
+		mk := func(k int) {
+			if k < 3 && g.freshNext[k] < g.ly.F {
+				s.exec(&vOp{Op: "create", N: k, Tx: g.ly.fresh[k] + g.freshNext[k]})
+				g.freshNext[k]++
+			}
+		}
+		s.exec(&vOp{Op: "conn", N: a, Peer: b, Mode: "disconnect"})
+		s.exec(&vOp{Op: "conn", N: b, Peer: a, Mode: "disconnect"})
+		mk(a)
+		mk(b)
+		s.exec(&vOp{Op: "conn", N: a, Peer: b, Mode: "connect"})
+		s.exec(&vOp{Op: "conn", N: b, Peer: a, Mode: "connect"})
+		mk(a)
+		feats = append(feats, "connection-flap-then-new-transactions")
+	}
 	// the fair suffix: every connection is (re-)established first
 	for _, cc := range s.sc.Conns {
 		c := s.nodes[cc.At].conns[cc.Peer]
